@@ -382,6 +382,22 @@ Proof. exact ex_shared_inputs. Qed.
    interleaved schedule (after 13 steps four generators are suspended, 10 bindings in the one heap); engine 0 observes
    c: a | u: [s(a,_36), s(b,_50)] | f: a, done | c: b, done | n: [b] | '=' interned as its 4th atom; engine 1 observes
    n: c | u: [s(c,_37)] | done; and both sequences are those of the engine ALONE (the instance of C04_interleave_alone_init) *)
+(* one step of the generator machine - ANY frame on top of the stack: goal, fact, function, clause, retract, the meta-call
+   builtins (metastep), the control goals of once / \= / findall (ctl_goal), FBar, FNeg, FColl (coll_finish) - whose frames are
+   over the cell set P, on a heap that is closed for P: run on the heap cut down to P it gives the same result (same new stack,
+   answer, fact store, log), and the new stack is over P again.  This is the lemma that is lifted to search / cnext / estep. *)
+Theorem C04_generator_step_frame : forall (P : nat -> bool) (fresh : nat -> nat),
+  (forall k, P (fresh k) = true) -> forall newid h0 m, closed P h0 -> Forall (fgood P) (mfr m) ->
+  sstep (fP P h0) fresh newid m = sstep h0 fresh newid m /\ kgood P (sstep h0 fresh newid m).
+Proof. exact (@sstep_frame). Qed.
+Print Assumptions C04_generator_step_frame.
+
+(* the steps of the meta-call builtins and of their control goals (everything that goes through lift_m) neither touch the
+   fact store nor the access log: whatever once / call / findall / \= read or write, they do through the goals they start *)
+Theorem C04_meta_steps_silent : forall m x, klog m (lift_m m x) = mlog m /\ kdb m (lift_m m x) = mdb m.
+Proof. exact lift_m_silent. Qed.
+Print Assumptions C04_meta_steps_silent.
+
 Example C04_nonvacuous_meta :
   proj 0 (snd (wrun 200 (init_world 2) msched))
   = [otag "ok" []; otag "ok" []; otag "ok" []; otag "started" []; mans (mA "a"); otag "started" [];
